@@ -29,6 +29,7 @@ type Vibranium struct {
 	counter sync.WaitGroup
 	stop    chan struct{}
 	TaskNum int
+	taskMux sync.Mutex
 }
 
 // Info show core info
